@@ -41,6 +41,7 @@ type c10Op struct {
 }
 
 type c10Case struct {
+	Log string `json:"nas_log_level,omitempty"` // logrus level of the NAS library's logger during the history ("" = default)
 	Enc   []byte  `json:"knas_enc"`
 	Int   []byte  `json:"knas_int"`
 	EA    uint8   `json:"ea"`
@@ -110,6 +111,7 @@ func genC10N(minOps, maxOps int, skipHeavy bool) func(t *rapid.T) c10Case {
 		}
 		// the history is one rapid slice value: rapid can drop and simplify single operations when shrinking
 		c.Ops = rapid.SliceOfN(rapid.Custom(genC10Op(skipHeavy)), minOps, maxOps).Draw(t, "ops")
+		c.Log = rapid.SampledFrom(logLevels).Draw(t, "nas_log_level")
 		return c
 	}
 }
@@ -184,6 +186,17 @@ type plainOutcome struct {
 }
 
 func c10Oracle(c c10Case) (v ev.Verdict) {
+	withNASLogLevel(c.Log, func() { v = c10Oracle0(c) })
+	if c.Log != "" {
+		v.Classes = append(v.Classes, "nas-log-level:"+c.Log)
+		if v.Err != nil {
+			v.Key = "loglevel-" + c.Log + ":" + v.Key
+		}
+	}
+	return v
+}
+
+func c10Oracle0(c c10Case) (v ev.Verdict) {
 	if len(c.Enc) != 16 || len(c.Int) != 16 || c.EA > 2 || c.IA < 1 || c.IA > 2 || c.Last > 0xffffff || c.ULCnt > 0xffffff {
 		v.Skip = true
 		return v
@@ -417,4 +430,97 @@ func TestC10_Histories(t *testing.T) {
 func TestC10_Wraps(t *testing.T) {
 	r := ev.New(t, "C10", "TestC10_Wraps")
 	ev.Run(t, r, genC10N(20, 60, true), c10Oracle)
+}
+
+// ---------------------------------------------------------------------------------------
+// Ciphertexts that look like something else. What the UE does with a ciphered message must not depend on what the
+// CIPHERTEXT happens to look like: here the ciphering key is searched (by the harness, with the reference cipher)
+// so that the ciphertext of the AMF's message begins like a plain 5GMM message (7E 00 <message type>), like a
+// security-protected one (7E 01..04), or like a 5GSM message (2E .. C1..D6). With uniformly drawn keys such
+// ciphertexts appear once in 10^4..10^6 messages.
+
+type c10PrefixCase struct {
+	Seed   uint64    `json:"seed"`
+	EA     uint8     `json:"ea"` // 1 | 2
+	IA     uint8     `json:"ia"`
+	HT     uint8     `json:"ht"` // 2 | 4
+	Target string    `json:"target"`
+	Msg    dlMsgSpec `json:"msg"`
+	Int    []byte    `json:"knas_int"`
+}
+
+func looksLike(target string, c []byte) bool {
+	if len(c) < 3 {
+		return false
+	}
+	switch target {
+	case "plain-5gmm":
+		return c[0] == 0x7e && c[1] == 0x00 && c[2] >= 0x41 && c[2] <= 0x68
+	case "protected-5gmm":
+		return c[0] == 0x7e && c[1] >= 1 && c[1] <= 4
+	case "5gsm":
+		return c[0] == 0x2e && c[2] >= 0xc1 && c[2] <= 0xd6
+	}
+	return false
+}
+
+func c10PrefixOracle(c c10PrefixCase) ev.Verdict {
+	plain := c.Msg.build()
+	if _, canon, err := plainCanonical(plain); err != nil || !bytes.Equal(canon, plain) || len(plain) < 3 || c.EA < 1 || c.EA > 2 || len(c.Int) != 16 {
+		return ev.Verdict{Skip: true}
+	}
+	// search the ciphering key: K_i = splitmix(seed, i); the first message of a new context is ciphered at COUNT 0
+	x := c.Seed
+	next := func() uint64 {
+		x += 0x9E3779B97F4A7C15
+		z := x
+		z = (z ^ (z >> 30)) * 0xBF58476D1CE4E5B9
+		z = (z ^ (z >> 27)) * 0x94D049BB133111EB
+		return z ^ (z >> 31)
+	}
+	budget := 3000000
+	if c.EA == 1 {
+		budget = 400000
+	}
+	var key [16]byte
+	found := false
+	for i := 0; i < budget && !found; i++ {
+		a, b := next(), next()
+		for j := 0; j < 8; j++ {
+			key[j], key[8+j] = byte(a>>(8*uint(j))), byte(b>>(8*uint(j)))
+		}
+		ctx := refsec.Ctx{KnasEnc: key, EA: c.EA, IA: c.IA}
+		ct, err := ctx.Cipher(0, refsec.DirDownlink, plain[:3])
+		found = err == nil && looksLike(c.Target, ct)
+	}
+	if !found {
+		return ev.Verdict{Skip: true, Classes: []string{"prefix-search:budget-exhausted"}}
+	}
+	hc := c10Case{Enc: key[:], Int: c.Int, EA: c.EA, IA: c.IA, Ops: []c10Op{{Msg: c.Msg, HT: c.HT, Via: "NASDecode"}}}
+	v := c10Oracle(hc)
+	v.NT = true
+	v.Classes = append(v.Classes, "ciphertext-looks-like:"+c.Target, fmt.Sprintf("prefix NEA%d", c.EA))
+	if v.Err != nil {
+		v.Key = "ciphertext-looks-like-" + c.Target + ":" + v.Key
+	}
+	return v
+}
+
+func TestC10_CiphertextPrefix(t *testing.T) {
+	r := ev.New(t, "C10", "TestC10_CiphertextPrefix")
+	ev.Run(t, r, func(t *rapid.T) c10PrefixCase {
+		c := c10PrefixCase{Seed: rapid.Uint64().Draw(t, "seed"), EA: uint8(rapid.IntRange(1, 2).Draw(t, "ea")), IA: uint8(rapid.IntRange(1, 2).Draw(t, "ia")),
+			HT: rapid.SampledFrom([]uint8{2, 2, 4}).Draw(t, "ht"), Int: gen128(t, "int")}
+		c.Target = rapid.SampledFrom([]string{"plain-5gmm", "protected-5gmm", "5gsm"}).Draw(t, "target")
+		if c.EA == 1 && c.Target == "plain-5gmm" && rapid.IntRange(0, 3).Draw(t, "cheap") != 0 {
+			c.Target = "protected-5gmm" // the SNOW 3G search is slow: mostly the 2^-14 targets
+		}
+		for i := 0; i < 20; i++ {
+			c.Msg = genDLMsg(t, fmt.Sprintf("m%d", i))
+			if len(c.Msg.Kind) < 4 || c.Msg.Kind[:4] != "GSM_" {
+				break
+			}
+		}
+		return c
+	}, c10PrefixOracle)
 }
